@@ -191,11 +191,30 @@ def _make_fevals(kind, N1, rng, mode, bounds):
                 length_scale=ls, length_scale_bounds="fixed"
             )
             alpha = nprng.normal(size=nctrl) * 0.05
+            # callers hand over whatever array they have: strided views of a larger pool,
+            # Fortran-ordered tables, read-only arrays (all valid NumPy inputs)
+            layout = rng.choice(["c", "c", "strided", "fortran", "cols", "readonly"])
             if part == "spinrbf":
                 X1c = lo + (hi - lo) * nprng.uniform(size=(2, nctrl, N1))
                 fevals.append(xe.SpinRBFEvaluator(kern, X1c, alpha))
             else:
                 X1c = lo + (hi - lo) * nprng.uniform(size=(nctrl, N1))
+                if layout == "strided":
+                    pool = np.full((2 * nctrl, N1), 1e3)
+                    pool[::2] = X1c
+                    X1c = pool[::2]
+                    apool = np.full(2 * nctrl, 1e3)
+                    apool[::2] = alpha
+                    alpha = apool[::2]
+                elif layout == "fortran":
+                    X1c = np.asfortranarray(X1c)
+                elif layout == "cols":
+                    pool = np.full((nctrl, N1 + 3), 1e3)
+                    pool[:, 1 : N1 + 1] = X1c
+                    X1c = pool[:, 1 : N1 + 1]
+                elif layout == "readonly":
+                    X1c.setflags(write=False)
+                    alpha.setflags(write=False)
                 if part == "rbf":
                     fevals.append(xe.RBFEvaluator(kern, X1c, alpha))
                 else:
